@@ -245,6 +245,11 @@ impl Subject {
             COp::Append { q, pos, payloads } => {
                 let res = if payloads.len() == 1 {
                     log.append_record(q, *pos, &payloads[0][..])
+                } else if payloads.is_empty() && self.op_count % 2 == 1 {
+                    // an empty batch is an iterator that yields nothing, whatever its size hint
+                    // says: every other time it is handed over as a filter that drops everything
+                    let dropped: [&[u8]; 2] = [b"x", b"y"];
+                    log.append_records(q, *pos, dropped.iter().copied().filter(|_| false))
                 } else {
                     log.append_records(q, *pos, payloads.iter().map(|p| &p[..]))
                 };
